@@ -1,0 +1,17 @@
+//go:build verif
+
+package dispatch
+
+import "sync/atomic"
+
+// VerifPoint, when set by a verification harness, is called at the named points of the
+// dispatcher's lock-free group management with the values involved. The harness may
+// record the step and/or park the calling goroutine (scheduler gate). No call site is
+// inside a critical section.
+var VerifPoint atomic.Pointer[func(name string, args ...any)]
+
+func verifPoint(name string, args ...any) {
+	if f := VerifPoint.Load(); f != nil {
+		(*f)(name, args...)
+	}
+}
